@@ -856,6 +856,10 @@ func (P *Program) generate(fn *ssa.Function, con *Contract, opts genOpts) (vc *V
 		for _, r := range con.Requires {
 			g.assert(g.specBool(e, r.Expr))
 		}
+		for _, r := range con.Assumes {
+			g.assert(g.specBool(e, r.Expr))
+			P.usedAssumption("assumed invariant in " + g.vc.Func + ": " + r.Text)
+		}
 	}
 	if fn.Pkg != nil {
 		g.vc.Pkg = fn.Pkg.Pkg.Path()
